@@ -15,3 +15,4 @@ import SfModel.OpenGate
 import SfModel.ReadWrap
 import SfModel.ChunkQuery
 import SfModel.SdsScan
+import SfModel.Geometry
